@@ -187,6 +187,8 @@ type c18Run struct {
 	pos    string
 	res    genlab.CLIResult
 	before map[string]string
+	// stdoutTo: the standard output of the run is this device instead of a pipe (write-fault injection)
+	stdoutTo string
 }
 
 const c18Sentinel = "// SENTINEL: this file existed before the run and must not change when the run fails\n"
@@ -222,7 +224,7 @@ func c18Exec(bin string, runs []*c18Run) {
 			r.before = genlab.ReadTree(d)
 			of, _ := r.outFlags()
 			args := append(append(append([]string{}, r.flags...), of...), r.args...)
-			r.res = genlab.RunCLI(bin, d, args, r.stdin, 60*time.Second)
+			r.res = genlab.RunCLITo(bin, d, args, r.stdin, 60*time.Second, r.stdoutTo)
 			os.RemoveAll(d)
 		}(i, r)
 	}
@@ -446,6 +448,17 @@ func c18(ctx *Ctx) {
 			flags: []string{"--schema-package", "v=example.com/p1", "--schema-output", "v=out/a.go", "--schema-package", "w=example.com/p1", "--schema-output", "w=out/b.go"},
 			setup: func(dir string) { os.MkdirAll(filepath.Join(dir, "out", blocked), 0o755) }})
 	}
+	// (C'') write faults injected through the device: every write to /dev/full fails with ENOSPC - as standard output, as the -o file, and as
+	// one of two mapped outputs; the run must fail with a diagnostic instead of reporting success for output that was never written
+	if _, err := os.Stat("/dev/full"); err == nil {
+		two := []genlab.File{{Path: "s.json", Content: valid}, {Path: "t.json", Content: strings.Replace(valid, `"v"`, `"w"`, 1)}}
+		runs = append(runs,
+			&c18Run{id: "C18/C/write-fault/stdout-is-a-full-device", mode: "stdout", fault: 1, kind: "write-fault", pos: "stdout", judged: true, files: two[:1], args: []string{"s.json"}, flags: []string{"-p", "s"}, stdoutTo: "/dev/full"},
+			&c18Run{id: "C18/C/write-fault/stdout-is-a-full-device/two-files", mode: "stdout", fault: 1, kind: "write-fault", pos: "stdout", judged: true, files: two, args: []string{"s.json", "t.json"}, flags: []string{"-p", "s"}, stdoutTo: "/dev/full"},
+			&c18Run{id: "C18/C/write-fault/output-file-is-a-full-device", mode: "stdout", fault: 1, kind: "write-fault", pos: "-o", judged: true, files: two[:1], args: []string{"s.json"}, flags: []string{"-p", "s", "-o", "/dev/full"}},
+			&c18Run{id: "C18/C/write-fault/mapped-output-is-a-full-device", mode: "stdout", fault: 1, kind: "write-fault", pos: "--schema-output", judged: true, files: two, args: []string{"s.json", "t.json"},
+				flags: []string{"-p", "s", "--schema-output", "w=/dev/full"}})
+	}
 	c18Exec(bin, runs)
 	byOutcome := map[string]int{}
 	known := func(r *c18Run) string {
@@ -464,6 +477,8 @@ func c18(ctx *Ctx) {
 			return "PRIMITIVE_ALLOF_BRANCHES_NOT_GENERATED"
 		case r.kind == "output-fault" && r.res.Exit != 0 && strings.TrimSpace(r.res.Stderr) != "" && r.res.Stdout == "" && !strings.Contains(r.res.Stderr, "panic:") && len(r.res.Files) > len(r.before):
 			return "PARTIAL_OUTPUT_ON_WRITE_ERROR"
+		case r.kind == "write-fault" && r.pos == "--schema-output" && r.res.Exit != 0 && strings.TrimSpace(r.res.Stderr) != "" && !strings.Contains(r.res.Stderr, "panic:") && r.res.Stdout != "":
+			return "PARTIAL_OUTPUT_ON_WRITE_ERROR" // the other output (standard output here) had already been written when the write failed
 		case r.kind == "malformed" && strings.HasPrefix(r.pos, "trailing-") && r.res.Exit == 0:
 			return "TRAILING_BYTES_IGNORED"
 		case r.kind == "malformed" && strings.HasPrefix(r.pos, "subst-") && r.res.Exit == 0 && r.fault == 1 && json.Valid([]byte(firstJSONValue(r.files[0].Content))):
